@@ -40,8 +40,10 @@ var c08Keys = []c08Key{
 	{"modulo", "10", "int", nil},
 }
 
-var c08Values = []string{"", "0", "-1", "1", "2", "99999999999999999999", "abc", "1.5", "inf", "-inf", "NaN", ",", "[{", "u", "d0"}
-var c08PairValues = []string{"0", "-1", "99999999999999999999", "abc"}
+// values that do not parse, and values that parse but are far out: 2^60 and the largest int64 overflow products
+// computed downstream (cycle x timescale, seconds x 1000)
+var c08Values = []string{"", "0", "-1", "1", "2", "99999999999999999999", "1152921504606846976", "9223372036854775807", "abc", "1.5", "inf", "-inf", "NaN", ",", "[{", "u", "d0"}
+var c08PairValues = []string{"0", "-1", "99999999999999999999", "1152921504606846976", "abc"}
 
 func c08Malformed(k c08Key, v string) bool {
 	switch k.typ {
@@ -139,8 +141,20 @@ func TestVerifC08(t *testing.T) {
 					tl = true
 				}
 			}
-			for _, ep := range endpoints(tl, 0) {
-				cases = append(cases, c08Case{method: "GET", url: fmt.Sprintf("%s/testpic_2s/%s?nowMS=%d", vCfgPrefix(p...), ep, now), want4xx: want4xx, label: label})
+			eps := endpoints(tl, 0)
+			nows := []int64{now}
+			for _, x := range p {
+				if strings.HasPrefix(x, "traffic_") { // traffic patterns are evaluated for requests below a BaseURL only
+					eps = append(eps, "bu0/"+eps[1], "bu1/"+eps[1], "bu0/V300/init.mp4")
+				}
+				if strings.HasPrefix(x, "start") || strings.HasPrefix(x, "stop") { // also an instant after both
+					nows = []int64{now, 8_000_000}
+				}
+			}
+			for _, ep := range eps {
+				for _, t := range nows {
+					cases = append(cases, c08Case{method: "GET", url: fmt.Sprintf("%s/testpic_2s/%s?nowMS=%d", vCfgPrefix(p...), ep, t), want4xx: want4xx, label: label})
+				}
 			}
 		}
 	}
@@ -183,6 +197,9 @@ func TestVerifC08(t *testing.T) {
 		{"chunkdur_0.5", "ato_2"}, {"chunkdur_0.5", "ato_2.5"}, {"chunkdur_0.5", "ato_1.999"}, {"chunkdur_0.5", "ato_inf"}, {"chunkdur_0", "ato_1"},
 		{"chunkdur_0.5", "ato_1", "eccp_cenc"}, {"chunkdur_0.5", "ato_1", "drm_nope"}, {"periods_3600"}, {"periods_7200"}, {"periods_0"}, {"periods_-60"},
 		{"periods_60", "continuous_1"}, {"timesubsdur_0", "timesubsstpp_en"}, {"timesubsdur_-5", "timesubsstpp_en"}, {"timesubsdur_100000", "timesubsstpp_en"},
+		{"start_7200", "stop_3600"}, {"start_7200", "stop_3600", "periods_60"}, {"start_7200", "stop_3600", "segtimeline_1"}, {"startrel_-10", "stoprel_-20"}, {"stop_0"},
+		{"traffic_u5d18446744073709551611"}, {"traffic_u9223372036854775807"}, {"traffic_u4611686018427387904d4611686018427387904"}, {"traffic_u1d1s1h18446744073709551613"},
+		{"statuscode_[{cycle:1152921504606846976,rsq:0,code:404}]"}, {"statuscode_[{cycle:9223372036854775807,rsq:0,code:404}]"}, {"statuscode_[{cycle:30,rsq:9223372036854775807,code:404}]"},
 		{"traffic_u0"}, {"traffic_u"}, {"traffic_u10,"}, {"traffic_,"}, {"traffic_u10,d5"}, {"statuscode_[{cycle:1,rsq:0,code:404}]"}, {"statuscode_[{}]"}, {"statuscode_[{cycle:30}]"},
 		{"statuscode_[{cycle:30,rsq:99,code:404,rep:}]"}, {"statuscode_[{rsq:0,code:404}]"}, {"statuscode_[{code:404}]"}, {"statuscode_[{cycle:30,rsq:0,code:404},{rsq:1,code:503}]"}, {"statuscode_[{cycle:30,rsq:0,code:404},{cycle:0,rsq:1,code:503}]"}, {"annexI_foo"}, {"annexI_="}, {"annexI_a=b=c"}, {"stoprel_abc"}, {"stoprel_"}, {"startrel_"}, {"stop_abc"},
 		{"drm_unknown"}, {"eccp_xyz"}, {"eccp_"}, {"patch_0"}, {"patch_-1"}, {"scte35_1"}, {"scte35_3"}, {"snr_-1"}, {"snr_4294967295"}, {"snr_4294967296"},
